@@ -68,11 +68,11 @@ theorem ns_ddParen (e : Node) (args asg : List Node) (m : String) (sp : Span) :
   · simp [ns_ddCall]; omega
 
 /-- the transform status / telemetry part of the state is untouched -/
-def TS (s' s : St) : Prop := s'.incs = s.incs ∧ s'.status = s.status ∧ s'.fuelOut = s.fuelOut
+def TS (s' s : St) : Prop := s'.incs = s.incs ∧ s'.status = s.status
 
-theorem TS.refl (s : St) : TS s s := ⟨rfl, rfl, rfl⟩
+theorem TS.refl (s : St) : TS s s := ⟨rfl, rfl⟩
 theorem TS.trans {a b c : St} (h1 : TS a b) (h2 : TS b c) : TS a c :=
-  ⟨h1.1.trans h2.1, h1.2.1.trans h2.2.1, h1.2.2.trans h2.2.2⟩
+  ⟨h1.1.trans h2.1, h1.2.trans h2.2⟩
 
 theorem isLiteralSum_ns : ∀ e : Node, isLiteralSum e = true → ns e = 0 := by
   intro e
@@ -96,9 +96,9 @@ theorem registerIdent_TS (n : Nat) (s : St) : TS (registerIdent n s).2 s := by
   simp only [registerIdent, run_modify]
   by_cases h : s.idents.contains n = true
   · rw [if_pos h]; exact TS.refl s
-  · rw [if_neg h]; exact ⟨rfl, rfl, rfl⟩
+  · rw [if_neg h]; exact ⟨rfl, rfl⟩
 
-theorem nextIdent_TS (s : St) : TS (nextIdent s).2 s := ⟨rfl, rfl, rfl⟩
+theorem nextIdent_TS (s : St) : TS (nextIdent s).2 s := ⟨rfl, rfl⟩
 
 theorem getTemporalIdent_ns (operand : Node) (asg : List Node) (sp : Span) (k : IdentKind) (s : St) :
     let r := getTemporalIdent operand asg sp k s
